@@ -10,6 +10,9 @@ Line: `chk <hex source (ignored here)> <kind> <scrutinee type id> T <n> <def>…
   (`mono`: the type table is the instantiation of these classes, checked by `monoCheck`)
 * then `X <n> (<k> <0|1>…)…`: per type id, the accessibility of each struct field from the class that
   contains the match (`visErr`); name id 0 is the enclosing function's parameter `x`
+* optionally `B <is method 0|1> <k> (<tparam name id> <bound type id | ->)… <k'> (…)… <name>`: the class's and the
+  member's type parameters and the type parameter that is the scrutinee's static type; the model
+  resolves it (`scopeOf`, `resolveTParam`, `scrutineeType`) and prints the scope as `scope=`
 * spat: `W` | `I <name id>` | `T <k> p…` | `O <k> (<field name> p)…` | `V <tag> <k> p…` | `R <k> p…`
 Answer: `nonexh=<counterexample or -> useless=<0|1> err=<0|1> panic=<0|1> typed=<0|1> inh=<0|1>`
 (`abs`: the abstract patterns `normalize` builds, in the hook's rendering, compared with what the real checker handed to the analysis;
@@ -67,6 +70,10 @@ def parseFlags : Toks → Option (List Bool × Toks)
     let (fl, ts) ← parseN parseNat (← k.toNat?) ts
     pure (fl.map (· != 0), ts)
   | [] => none
+
+def parseTParam : Toks → Option ((Nat × Option Nat) × Toks)
+  | name :: bound :: ts => do pure ((← name.toNat?, bound.toNat?), ts)
+  | _ => none
 
 def parseGVariant : Toks → Option ((Nat × List GTy) × Toks)
   | name :: ar :: ts => do
@@ -152,34 +159,35 @@ partial def renderAbs : Pat → String
   | .wild => "_"
   | .or ps => "O(" ++ "|".intercalate (ps.map renderAbs) ++ ")"
   | .struct none args => "T(" ++ ",".intercalate (args.map renderAbs) ++ ")"
-  | .struct (some c) args => s!"#{c.name}(" ++ ",".intercalate (args.map renderAbs) ++ ")"
+  | .struct (some c) args => s!"@{c.cls}.#{c.name}(" ++ ",".intercalate (args.map renderAbs) ++ ")"
 
-def answer (kind : String) (ty : Nat) (defs : List Def) (pats : List SPat) (mono : Bool)
-    (visTab : List (List Bool)) : String :=
+def answer (kind : String) (tyo : Option Nat) (defs : List Def) (pats : List SPat) (mono : Bool)
+    (visTab : List (List Bool)) (binderErr : Bool) (scopeS : String) : String :=
   let sig : Sig := fun t => defs.getD t .prim
   let cx := cxOf defs
   -- if-let: `wildcard_on_bad_pattern = false` (main_checker.rs:939); match / let: `true` (981, 1539)
   let wildOnBad := kind != "iflet"
-  let ns := pats.map (fun p => normalize sig wildOnBad p (some ty))
+  let ty := tyo.getD 0
+  let ns := pats.map (fun p => normalize sig wildOnBad p tyo)
   let aps := ns.map (·.pat)
   let vis : Vis := fun t => visTab.getD t []
-  let err := ns.any (·.err) || pats.any (fun p => visErr sig vis p ty)
+  let err := ns.any (·.err) || (tyo.isSome && pats.any (fun p => visErr sig vis p ty)) || binderErr
   let pan := ns.any (·.panic)
-  let typed := aps.all (fun p => patTy sig p ty)
+  let typed := tyo.isNone || aps.all (fun p => patTy sig p ty)
   let absS := ";".intercalate (aps.map renderAbs)
   let inh := rankCheck defs (computeRanks defs)
   let hyp := cxOkCheck defs && nodupCheck defs
-  let wf := pats.all (fun p => swf sig wildOnBad p ty)
+  let wf := tyo.isSome && pats.all (fun p => swf sig wildOnBad p ty)
   if kind == "iflet" then
     -- main_checker.rs:940-946: useless (irrefutable) iff a wildcard is not useful after the pattern
     match isAdditionalPatternUseful cx aps .wild with
     | none => "fuel"
-    | some u => s!"nonexh=- useless={b (!u)} err={b err} panic={b pan} typed={b typed} inh={b inh} mono={b mono} hyp={b hyp} swf={b wf} abs={absS}"
+    | some u => s!"nonexh=- useless={b (!u)} err={b err} panic={b pan} typed={b typed} inh={b inh} mono={b mono} hyp={b hyp} swf={b wf} abs={absS} scope={scopeS}"
   else
     match incompleteCounterexample cx aps with
     | none => "fuel"
-    | some none => s!"nonexh=- useless=0 err={b err} panic={b pan} typed={b typed} inh={b inh} mono={b mono} hyp={b hyp} swf={b wf} abs={absS}"
-    | some (some d) => s!"nonexh={(render d).replace " " "~"} useless=0 err={b err} panic={b pan} typed={b typed} inh={b inh} mono={b mono} hyp={b hyp} swf={b wf} abs={absS}"
+    | some none => s!"nonexh=- useless=0 err={b err} panic={b pan} typed={b typed} inh={b inh} mono={b mono} hyp={b hyp} swf={b wf} abs={absS} scope={scopeS}"
+    | some (some d) => s!"nonexh={(render d).replace " " "~"} useless=0 err={b err} panic={b pan} typed={b typed} inh={b inh} mono={b mono} hyp={b hyp} swf={b wf} abs={absS} scope={scopeS}"
 
 def step (_ : Unit) (line : String) : Unit × String :=
   match words line with
@@ -189,23 +197,39 @@ def step (_ : Unit) (line : String) : Unit × String :=
       match rest with
       | "P" :: m :: rest =>
         let (pats, rest) ← parseN parsePat (← m.toNat?) rest
-        let extra : Bool × List (List Bool) := match rest with
+        -- optional trailing sections: G/Y (generic classes + closed type of each id), X (field
+        -- accessibility), B (type parameters in scope + the scrutinee's type parameter)
+        let (mono, rest) : Bool × Toks := match rest with
           | "G" :: k :: rest =>
-            (do
+            ((do
               let (classes, rest) ← parseN parseGDef (← k.toNat?) rest
               match rest with
               | "Y" :: j :: rest =>
                 let (tyOf, rest) ← parseN parseGTy (← j.toNat?) rest
-                let visTab := match rest with
-                  | "X" :: n :: rest => ((do
-                      let (tab, _) ← parseN parseFlags (← n.toNat?) rest
-                      pure tab) : Option (List (List Bool))).getD []
-                  | _ => []
-                pure (monoCheck classes tyOf defs, visTab)
-              | _ => none).getD (false, [])
-          | _ => (false, [])
-        let mono := extra.1
-        pure (answer kind (← ty.toNat?) defs pats mono extra.2)
+                pure (monoCheck classes tyOf defs, rest)
+              | _ => none) : Option (Bool × Toks)).getD (false, [])
+          | _ => (false, rest)
+        let (visTab, rest) : List (List Bool) × Toks := match rest with
+          | "X" :: n :: rest => ((do
+              let (tab, rest) ← parseN parseFlags (← n.toNat?) rest
+              pure (tab, rest)) : Option (List (List Bool) × Toks)).getD ([], [])
+          | _ => ([], rest)
+        let tyN ← ty.toNat?
+        match rest with
+        | "B" :: isM :: kc :: rest =>
+          let (cp, rest) ← parseN parseTParam (← kc.toNat?) rest
+          match rest with
+          | kf :: rest =>
+            let (fp, rest) ← parseN parseTParam (← kf.toNat?) rest
+            let name ← (rest.head?).bind String.toNat?
+            let isMethod := isM == "1"
+            let scope := scopeOf isMethod cp fp
+            let rend := ",".intercalate (scope.map fun (nb : Nat × Option Nat) =>
+              s!"~{nb.1}=" ++ (match nb.2 with | some t => s!"${t}" | none => "-"))
+            pure (answer kind (scrutineeType scope (.tparam name)) defs pats mono visTab
+              (tparamCollision isMethod cp fp || (resolveTParam scope name).isNone) (if rend.isEmpty then "-" else rend))
+          | [] => none
+        | _ => pure (answer kind (scrutineeType [] (.inst tyN)) defs pats mono visTab false "-")
       | _ => none
     ((), r.getD "bad-line")
   | _ => ((), "bad-op")
